@@ -19,11 +19,13 @@ func run(c *driver.Ctx) {
 	settleWaitNs.Store(int64(3 * time.Second))
 	n1 := int64(c.N(150, 2500))
 	n2 := int64(c.N(40, 700))
+	nd := int64(c.N(40, 600))
 	if c.Variant == "race" {
 		n1 = int64(c.N(40, 500))
 		n2 = int64(c.N(30, 500))
+		nd = int64(c.N(20, 300))
 	}
-	for i := int64(0); i < n1+n2; i++ {
+	for i := int64(0); i < n1+nd+n2; i++ {
 		if !c.Want(i) {
 			continue
 		}
@@ -32,11 +34,15 @@ func run(c *driver.Ctx) {
 		}
 		rng := c.CaseRand(i)
 		c.Eval()
-		if i < n1 {
+		switch {
+		case i < n1:
 			runL1(c, rng, i)
 			c.Observe("l1_scripts", 1)
-		} else {
-			runL2(c, rng, i-n1)
+		case i < n1+nd:
+			runDirected(c, rng, i-n1)
+			c.Observe("l1_directed_rendezvous", 1)
+		default:
+			runL2(c, rng, i-n1-nd)
 			c.Observe("l2_histories", 1)
 		}
 	}
@@ -47,6 +53,7 @@ func main() {
 		ID:    "C02",
 		Level: "exploration",
 		Rule: "L1: a case is a seed-generated script of offer / complete / cancel steps on a seed-generated configuration (memory|persistent, requests|items|bytes sizer, capacity, 1-3 consumers, block_on_overflow, wait_for_result), distinct by (configuration, step trace), non-trivial when it reached a refusal, a blocked producer, >= 2 requests in flight or a cancellation while blocked; " +
+"L1-directed: the signal-versus-cancel rendezvous inside a blocked producer's wait window (completion and cancellation made ready at the same instant through the instrumented context), followed by a block/complete/release probe of the wake-up bookkeeping; " +
 			"L2: a case is one concurrent history (2-5 producers x 3-7 offers, auto-completing consumers, cancellers, size reader), distinct by interleaving signature (order of call/return/hand-off/done events with ids erased), non-trivial when >= 2 offers overlapped in time",
 		Assumptions: []string{
 			"reported size = the exporter's own otelcol_exporter_queue_size gauge (what a user sees)",
